@@ -932,3 +932,48 @@ impl DnsService {
         })
     }
 }
+
+/// Verification hook (built only with `--cfg erbium_verif`): presents a query
+/// to the ACL stage of the DNS pipeline.  The question asks for type ANY, which
+/// the stage after the ACL turns down without touching routing, cache or any
+/// upstream, so the two outcomes "refused by the ACL" and "handed on" can be
+/// told apart without a network.
+#[cfg(erbium_verif)]
+pub mod verif_acl {
+    pub struct Gate {
+        conf: crate::config::SharedConfig,
+        handler: super::acl::DnsAclHandler,
+    }
+
+    impl Gate {
+        pub async fn new() -> Self {
+            let conf: crate::config::SharedConfig = Default::default();
+            let handler = super::acl::DnsAclHandler::new(conf.clone()).await;
+            Gate { conf, handler }
+        }
+
+        /// 0 = past the ACL (then denied as an ANY query), 1 = refused by the ACL, 2 = anything else
+        pub async fn check(&self, acls: Vec<crate::acl::Acl>, remote: super::NetAddr) -> u8 {
+            self.conf.write().await.acls = acls;
+            // id 1, RD, one question: example.com. ANY IN
+            let pkt: &[u8] = &[
+                0, 1, 1, 0, 0, 1, 0, 0, 0, 0, 0, 0, 7, b'e', b'x', b'a', b'm', b'p', b'l', b'e', 3, b'c',
+                b'o', b'm', 0, 0, 255, 0, 1,
+            ];
+            let msg = match super::DnsListenerHandler::build_dns_message(
+                pkt,
+                std::net::IpAddr::V4(std::net::Ipv4Addr::LOCALHOST),
+                remote,
+                super::Protocol::Udp,
+            ) {
+                Ok(m) => m,
+                Err(_) => return 2,
+            };
+            match self.handler.handle_query(&msg).await {
+                Err(super::Error::RefusedByAcl(_)) => 1,
+                Err(super::Error::Denied(_)) => 0,
+                _ => 2,
+            }
+        }
+    }
+}
